@@ -1534,6 +1534,7 @@ func layRunC03(t gen.Tier, rng *gen.Rng, rep *Reporter) {
 // linesC03 re-examines given protocol lines: `R …` lines as they are, `M <spec> pack <msg>`
 // lines as the corresponding `R <spec> <msg>`.
 func layLinesC03(lines []string, rep *Reporter) {
+	historyReplayLines(lines, rep)
 	for _, l := range lines {
 		t := strings.Split(l, " ")
 		switch {
